@@ -13,18 +13,26 @@
    CL0 (content-length: 0)  S (scheme://)  sl (/)  co (:)  lp/rp ( and ) of $( )  lt3 (<<<)  xnl/xct (the four characters
    \xNN that request_content_for_console writes for a control character)  GET POST (those method names).
 
-   One behaviour = one export of one request that differs from the base request in one field.          *)
+   One behaviour = up to MaxSeq exports, in any formats, of ONE flow whose request differs from the base request in
+   one field (an export must not change the flow: cleanup_request works on a copy).  Sequences longer than one are
+   explored for strings of length <= SeqLen.                                                             *)
 EXTENDS Mon_Export, TLC
 CONSTANTS Alphabet,     \* character classes used for generated strings
           Work,         \* set of <<fmt, field, maxlen>>: which strings are explored for which format / field
+          MaxSeq, SeqLen,
           Repaired      \* FALSE: export.py as it is.  TRUE: the handler proposed in findings_proposed/C48.md (body always
                         \* shlex.quote'd, curl --globoff / --data-raw / "-H 'name;'" for empty values / -X whenever a
                         \* body is sent, CommandError for a header name starting with @)
-VARIABLES done, mon, obs
-vars == <<done, mon, obs>>
+VARIABLES nexp,   \* exports done on this flow
+          cur,    \* <<field, string>> that defines the flow's request (fixed by the first export)
+          mon, obs
+vars == <<nexp, cur, mon, obs>>
 
-Init == done = FALSE /\ mon = MonInit /\ obs = <<>>
-Live == mon.bad = <<>> /\ ~done
+Init == nexp = 0 /\ cur = <<"", <<>>>> /\ mon = MonInit /\ obs = <<>>
+Live == mon.bad = <<>> /\ nexp < MaxSeq
+\* the same flow is exported again: its request is still the one the first export saw
+SameFlow(field, s) == IF nexp = 0 THEN TRUE ELSE cur[1] = field /\ cur[2] = s /\ Len(s) <= SeqLen
+Step(field, s) == nexp' = nexp + 1 /\ cur' = <<field, s>>
 Emit(evs) == obs' = evs /\ mon' = FoldEvents(MonStep, mon, evs)
 
 Strings(n) == UNION {[1..k -> Alphabet] : k \in 0..n}
@@ -230,11 +238,11 @@ Tags(r) ==
 Pair(w, g) == IF w = g THEN <<1, 1>> ELSE <<1, 2>>
 
 Export(fmt, field, s) ==
-  /\ Live /\ done' = TRUE
+  /\ Live /\ SameFlow(field, s) /\ Step(field, s)
   /\ \E w \in Work : w[1] = fmt /\ w[2] = field /\ Len(s) <= w[3]
   /\ Admissible(field, s)
   /\ IF Repaired /\ fmt = "curl" /\ field = "hname" /\ s[1] = "at"
-     THEN Emit(<<[k |-> "refused", fmt |-> fmt, exc |-> "CommandError"]>>)
+     THEN Emit(<<[k |-> "refused", fmt |-> fmt, nth |-> nexp + 1, exc |-> "CommandError"]>>)
      ELSE
      LET r   == Request(field, s)
          src == IF fmt = "curl" THEN CurlCommand(r) ELSE HttpieCommand(r)
@@ -248,7 +256,7 @@ Export(fmt, field, s) ==
          gotB == IF fmt = "curl" THEN (IF p.pbad THEN <<"garbled">> ELSE dec.body)
                  ELSE (IF Len(r.body) = 0 THEN <<>> ELSE IF p.pbad THEN <<"garbled">>
                        ELSE p.stdin \o <<"nl">>)                                   \* <<< appends a newline
-     IN Emit(<<[k |-> "run", fmt |-> fmt, field |-> (IF field = "getbody" THEN "body" ELSE field), cls |-> s,
+     IN Emit(<<[k |-> "run", fmt |-> fmt, nth |-> nexp + 1, field |-> (IF field = "getbody" THEN "body" ELSE field), cls |-> s,
                 cmds |-> <<prog>> \o [i \in 1..p.nsub |-> "printf"],
                 nprog |-> IF prog = "other" THEN 0 ELSE 1,
                 other |-> IF p.inj THEN 1 ELSE 0,
@@ -265,12 +273,13 @@ RawAdmissible(field, s) ==
   IF field \in {"method", "hname"} THEN Len(s) > 0 /\ noctl /\ nosp
   ELSE IF field = "path" THEN noctl
   ELSE IF field = "hval" THEN noctl /\ (IF Len(s) = 0 THEN TRUE ELSE s[1] # "sp" /\ s[Len(s)] # "sp")
-  ELSE field = "body"
+  ELSE IF field = "host" THEN Len(s) > 0 /\ noctl
+  ELSE field \in {"body", "getbody"}
 ExportRaw(field, s) ==
-  /\ Live /\ done' = TRUE
+  /\ Live /\ SameFlow(field, s) /\ Step(field, s)
   /\ \E w \in Work : w[1] = "raw" /\ w[2] = field /\ Len(s) <= w[3]
   /\ RawAdmissible(field, s)
-  /\ Emit(<<[k |-> "raw", field |-> field, cls |-> s, parsed |-> TRUE, m |-> <<1, 1>>, t |-> <<1, 1>>, v |-> <<1, 1>>,
+  /\ Emit(<<[k |-> "raw", nth |-> nexp + 1, field |-> (IF field = "getbody" THEN "body" ELSE field), cls |-> s, parsed |-> TRUE, m |-> <<1, 1>>, t |-> <<1, 1>>, v |-> <<1, 1>>,
              h_w |-> <<1, 2, 3>>, h_g |-> <<1, 2, 3>>, b |-> <<1, 1>>]>>)
 
 MaxLen == CHOOSE n \in {w[3] : w \in Work} : \A w \in Work : w[3] <= n
